@@ -1,5 +1,5 @@
-CONSTANT Family = "quick"
-CONSTANT MaxLook = 0
+CONSTANT Family = "lookalike"
+CONSTANT MaxLook = 3
 INIT Init
 NEXT Next
 INVARIANTS Emit Laws
